@@ -51,6 +51,14 @@ theorem swap_network_spec (n : Nat) (offset : Bool) :
   · intro q hq p hp
     exact swap_network_pair_once n offset p q hp hq
 
+/-- The network with `offset=True` is the mirror image, in time and in space, of the network with
+`offset=False`: the same pairs of modes meet in reverse order, on the mirrored qubit positions
+`(n-2-a, n-1-a)`.  (This is what makes a "network, then network with offset=True on the reversed
+qubits" sequence a palindrome — see C15 `lsn_sym_step_mirrored`.) -/
+theorem swap_network_offset_mirror (n : Nat) :
+    (swapNetwork n true).2 = ((swapNetwork n false).2.reverse).map (mirror n) :=
+  swapNetwork_mirror n
+
 /-- non-vacuity: the contract is not trivially true (a log that misses a pair is rejected) and
 the Model's log for `n = 4` is the documented one -/
 example : swapOk 3 [2, 1, 0] [(0, 1, 0, 1), (0, 2, 1, 2)] = false := by decide
